@@ -2324,11 +2324,20 @@ fn split_signed_range(
             ));
         }
         if range[0] >= min as i128 && range[1] - 1 <= max as i128 {
-            ranges.push(Ctor::SignedInclusiveRange(
-                ty,
-                range[0] as i64,
-                (range[1] - 1) as i64,
-            ));
+            // (the pieces are disjoint: the first value of a longer piece is a piece of its own)
+            if range[0] < range[1] - 1 {
+                ranges.push(Ctor::SignedInclusiveRange(
+                    ty,
+                    range[0] as i64 + 1,
+                    (range[1] - 1) as i64,
+                ));
+            } else {
+                ranges.push(Ctor::SignedInclusiveRange(
+                    ty,
+                    range[0] as i64,
+                    (range[1] - 1) as i64,
+                ));
+            }
         }
     }
     ranges
@@ -2446,14 +2455,16 @@ fn usefulness(patterns: Vec<PatternStack>, q: PatternStack, defs: &Defs) -> Vec<
                                 meta,
                             ),
                         ),
+                        // (a constructor with fields takes as many patterns from the front of the
+                        // witness as it has fields, the rest belongs to the columns behind it)
                         Ctor::Tuple(fields) => {
-                            witness = vec![Pattern::typed(
-                                PatternEnum::Tuple(witness),
-                                Type::Tuple(fields.clone()),
-                                meta,
-                            )]
+                            let rest = witness.split_off(fields.len());
+                            let tuple = PatternEnum::Tuple(witness);
+                            witness = vec![Pattern::typed(tuple, Type::Tuple(fields.clone()), meta)];
+                            witness.extend(rest);
                         }
                         Ctor::Struct(struct_name, fields) => {
+                            let rest = witness.split_off(fields.len());
                             let witness_fields: Vec<_> = fields
                                 .iter()
                                 .zip(witness.into_iter())
@@ -2463,16 +2474,19 @@ fn usefulness(patterns: Vec<PatternStack>, q: PatternStack, defs: &Defs) -> Vec<
                                 PatternEnum::Struct(struct_name.clone(), witness_fields),
                                 Type::Struct(struct_name.clone()),
                                 meta,
-                            )]
+                            )];
+                            witness.extend(rest);
                         }
-                        Ctor::Variant(enum_name, variant_name, None) => {
-                            witness = vec![Pattern::typed(
+                        Ctor::Variant(enum_name, variant_name, None) => witness.insert(
+                            0,
+                            Pattern::typed(
                                 PatternEnum::EnumUnit(enum_name.clone(), variant_name.clone()),
                                 Type::Enum(enum_name.clone()),
                                 meta,
-                            )]
-                        }
-                        Ctor::Variant(enum_name, variant_name, Some(_)) => {
+                            ),
+                        ),
+                        Ctor::Variant(enum_name, variant_name, Some(fields)) => {
+                            let rest = witness.split_off(fields.len());
                             witness = vec![Pattern::typed(
                                 PatternEnum::EnumTuple(
                                     enum_name.clone(),
@@ -2481,7 +2495,8 @@ fn usefulness(patterns: Vec<PatternStack>, q: PatternStack, defs: &Defs) -> Vec<
                                 ),
                                 Type::Enum(enum_name.clone()),
                                 meta,
-                            )]
+                            )];
+                            witness.extend(rest);
                         }
                         Ctor::Array(elem_ty, size) => witness.insert(
                             0,
@@ -2566,9 +2581,13 @@ fn expect_pattern_suffix(ty: &Type, suffix: Type, meta: MetaInfo) -> Result<(), 
 /// The numbers of a pattern are compared with as many bits as the matched type has, so they must
 /// be values of that type.
 fn expect_pattern_in_range(ty: &Type, from: i128, to: i128, meta: MetaInfo) -> Result<(), TypeErrors> {
+    // (a number without a type is a 32-bit number)
     let range = match ty {
-        Type::Unsigned(ty) => ty.max().map(|max| (0, max as i128)),
-        Type::Signed(ty) => ty.min().zip(ty.max()).map(|(min, max)| (min as i128, max as i128)),
+        Type::Unsigned(ty) => Some((0, ty.max().unwrap_or(u32::MAX as u64) as i128)),
+        Type::Signed(ty) => Some((
+            ty.min().unwrap_or(i32::MIN as i64) as i128,
+            ty.max().unwrap_or(i32::MAX as i64) as i128,
+        )),
         _ => None,
     };
     match range {
